@@ -401,6 +401,22 @@ fn strat_b(_t: Tier) -> BoxedStrategy<CaseB> {
         .boxed()
 }
 
+fn fuzz_a(mut c: CaseA) -> CaseA {
+    c.start = 1 + c.start % (u64::MAX - 1001);
+    c.n = 1 + c.n % 39;
+    c.steps.truncate(60);
+    c
+}
+
+fn fuzz_b(mut c: CaseB) -> CaseB {
+    c.start = 5 + c.start % (u64::MAX - 1005);
+    c.confirms.truncate(40);
+    for x in c.confirms.iter_mut() {
+        x.0 %= 24;
+    }
+    c
+}
+
 pub fn parts() -> Vec<Box<dyn PartDyn>> {
     vec![
         Box::new(Part::<CaseA> {
@@ -413,6 +429,7 @@ pub fn parts() -> Vec<Box<dyn PartDyn>> {
             enumerate: Some(enumerate_a),
             shrink_budget: 4000,
             confirm_runs: 1,
+            fuzz: Some(fuzz_a),
         }),
         Box::new(Part::<CaseB> {
             name: "arbitrary",
@@ -424,6 +441,7 @@ pub fn parts() -> Vec<Box<dyn PartDyn>> {
             enumerate: None,
             shrink_budget: 4000,
             confirm_runs: 1,
+            fuzz: Some(fuzz_b),
         }),
     ]
 }
